@@ -54,22 +54,24 @@ mod set_reach__srcpar;
 mod cp__topar;
 mod bool_lat__par;
 mod lat_multi_improve__to;
-mod count_paths__src0;
-mod neg_basic__par;
-mod neg_basic__redecl;
-mod neg_basic__exp;
-mod agg_lattice__ser;
+mod count_paths__mrt;
+mod count_paths__srcpar;
+mod neg_basic__gen;
+mod neg_basic__perm1;
+mod agg_minmaxsum__pari;
+mod agg_lattice__pari;
 mod neg_rec_after__pari;
 mod agg_empty__pari;
-mod disj__src1;
-mod disj__ren;
-mod disj_nested__exppar;
-mod rep_expr__pari;
-mod neg_in_disj__ser;
-mod mac_basic__run;
-mod mac_basic__runpar;
-mod mac_capture__exppar;
-mod mac_disj__pari;
+mod disj__run;
+mod disj__runpar;
+mod disj_nested__ser;
+mod pat_args__exp;
+mod multi_head_disj__par;
+mod neg_in_disj__exppar;
+mod mac_basic__gen;
+mod mac_basic__exp;
+mod mac_nested__par;
+mod mac_disj__exppar;
 
 fn lookup(name: &str) -> fn() -> Box<dyn Driven> {
    match name {
@@ -119,22 +121,24 @@ fn lookup(name: &str) -> fn() -> Box<dyn Driven> {
       "cp__topar" => cp__topar::make,
       "bool_lat__par" => bool_lat__par::make,
       "lat_multi_improve__to" => lat_multi_improve__to::make,
-      "count_paths__src0" => count_paths__src0::make,
-      "neg_basic__par" => neg_basic__par::make,
-      "neg_basic__redecl" => neg_basic__redecl::make,
-      "neg_basic__exp" => neg_basic__exp::make,
-      "agg_lattice__ser" => agg_lattice__ser::make,
+      "count_paths__mrt" => count_paths__mrt::make,
+      "count_paths__srcpar" => count_paths__srcpar::make,
+      "neg_basic__gen" => neg_basic__gen::make,
+      "neg_basic__perm1" => neg_basic__perm1::make,
+      "agg_minmaxsum__pari" => agg_minmaxsum__pari::make,
+      "agg_lattice__pari" => agg_lattice__pari::make,
       "neg_rec_after__pari" => neg_rec_after__pari::make,
       "agg_empty__pari" => agg_empty__pari::make,
-      "disj__src1" => disj__src1::make,
-      "disj__ren" => disj__ren::make,
-      "disj_nested__exppar" => disj_nested__exppar::make,
-      "rep_expr__pari" => rep_expr__pari::make,
-      "neg_in_disj__ser" => neg_in_disj__ser::make,
-      "mac_basic__run" => mac_basic__run::make,
-      "mac_basic__runpar" => mac_basic__runpar::make,
-      "mac_capture__exppar" => mac_capture__exppar::make,
-      "mac_disj__pari" => mac_disj__pari::make,
+      "disj__run" => disj__run::make,
+      "disj__runpar" => disj__runpar::make,
+      "disj_nested__ser" => disj_nested__ser::make,
+      "pat_args__exp" => pat_args__exp::make,
+      "multi_head_disj__par" => multi_head_disj__par::make,
+      "neg_in_disj__exppar" => neg_in_disj__exppar::make,
+      "mac_basic__gen" => mac_basic__gen::make,
+      "mac_basic__exp" => mac_basic__exp::make,
+      "mac_nested__par" => mac_nested__par::make,
+      "mac_disj__exppar" => mac_disj__exppar::make,
       _ => panic!("no such program variant in this shard: {}", name),
    }
 }
